@@ -241,6 +241,25 @@ func (c *Ctx) theHandlerClosure(f *ssa.Function) *ssa.Function {
 			}
 		}
 	}
+	if len(hs) == 0 {
+		// the literal was turned into a named handler type: a struct the constructor allocates, unknown to the
+		// baseline, whose ServeHTTP has the handler signature
+		seenT := map[string]bool{}
+		for _, in := range instrs(f) {
+			al, ok := in.(*ssa.Alloc)
+			if !ok {
+				continue
+			}
+			n, st := structOf(al.Type())
+			if n == nil || st == nil || n.Obj().Pkg() == nil || !isRepoPath(n.Obj().Pkg().Path()) || !isNewType(n) || seenT[typeFullName(n)] {
+				continue
+			}
+			seenT[typeFullName(n)] = true
+			if m := curProg.methodOf(n, "ServeHTTP"); m != nil && m.Signature.Params().Len() == 2 && m.Signature.Results().Len() == 0 {
+				hs = append(hs, m)
+			}
+		}
+	}
 	if len(hs) != 1 {
 		fatalf("anchor: expected exactly one http handler literal in %s, found %d", f, len(hs))
 	}
@@ -280,3 +299,7 @@ func codecFuncOf(outer *ssa.Function, nParams, nResults int) *ssa.Function {
 	}
 	return f
 }
+
+// hRW / hReq: the ResponseWriter and Request parameters of a handler function (literal or ServeHTTP method).
+func hRW(f *ssa.Function) *ssa.Parameter  { return f.Params[len(f.Params)-2] }
+func hReq(f *ssa.Function) *ssa.Parameter { return f.Params[len(f.Params)-1] }
